@@ -1,6 +1,7 @@
 """C16 — the attribution tracker is total, bounded and conservative (DESIGN §8 C16)."""
 import os
 from vlib import common as C
+from vlib.props import bridge_util as B
 
 PROP = "C16"
 THEOREMS = [
@@ -27,6 +28,31 @@ THEOREMS = [
 ]
 
 
+def phase_linestep(res, seed, n):
+    """bridge tie: real checkpoint pipeline vs Lean LineStep vs Sys.checkpointAttr (broken tie name correspondence:linestep)"""
+    corpus = os.path.join(C.VERIF, "corpus", "C16", "linestep.jsonl")
+    before = dict(res.tags)
+    bad = 0
+    chunk = 40000
+    k = 0
+    while k * chunk < n:
+        b, _ = C.phase_suite(res, "c16ls", seed + 104729 * k, min(chunk, n - k * chunk), corpus if k == 0 else None,
+                             name="correspondence:linestep" if n <= chunk else f"correspondence:linestep:{k}")
+        bad += b
+        k += 1
+        if res.violations:
+            break
+    # the prediction is claimed for the alignment the generator intends: the real diff must choose it (almost) always
+    good = res.tags.get("alignment:as-intended", 0) - before.get("alignment:as-intended", 0)
+    other = res.tags.get("alignment:other", 0) - before.get("alignment:other", 0)
+    ok = good > 0 and other * 50 <= good
+    res.obligation("linestep generator: the real line diff chooses the intended alignment in >= 98% of the cases", ok, "distribution")
+    if not ok:
+        res.broken_tie("correspondence:linestep", f"intended alignment chosen in {good} of {good + other} cases")
+        bad += 1
+    return bad
+
+
 def run(tier, seed):
     # the tracker prints benchmark lines to stderr in debug builds unless GIT_AI_DEBUG=0
     os.environ["GIT_AI_DEBUG"] = "0"
@@ -38,13 +64,22 @@ def run(tier, seed):
                 "boundary-aligned overlapping, cover-all, chained from a previous real update, malformed: unsorted/"
                 "overlapping/out-of-range/zero-length/inverted/off-boundary/huge/duplicate); synthetic valid and invalid "
                 "segment lists and move mappings; line<->char projection inputs. A case is one request sent to both the "
-                "Rust function and the Lean model; distinct = distinct request JSON")
+                "Rust function and the Lean model; distinct = distinct request JSON. "
+                "Suite c16ls (correspondence:linestep): the checkpoint pipeline of make_entry_for_file (line attributions -> char "
+                "attributions -> human fill -> update_attributions -> line attributions) on line-structured edits: 0-16 previous "
+                "lines with per-line authors (human / 3 AI sessions, single-line entries or INITIAL-like runs), lines kept / deleted / "
+                "freshly inserted without reordering (identity, append, replace-all, mixed; replace hunks; blank and whitespace-only "
+                "lines; LF/CRLF/mixed; multi-byte tokens), every line with content and at least one token no other line has, so the "
+                "real line diff has one minimal alignment; per case the real per-line authors (real diff, and the real transform on "
+                "line-granular segments) are compared with Lean LineStep.lineStep and with Sys.checkpointAttr on the induced ids")
     res.trusted = ["Lean 4.33 kernel (axioms: propext, Quot.sound, Classical.choice only)",
                    "harness/src/suites/c16.rs generators, contract checks, oracles and canonicalisation",
                    "imara-diff, the tokenizer and the move detector are parameters of the model: their outputs are "
                    "taken from the real code through verif_hooks and contract-checked per case, not proved",
                    "Rust str invariants (a &str is valid UTF-8): byte-level whitespace/boundary predicates of the "
-                   "model agree with char-level ones on valid UTF-8"]
+                   "model agree with char-level ones on valid UTF-8",
+                   "bridge (Props/Bridge.lean): the theorems speak of line-granular segments; that the real diff's token-level "
+                   "refinement of changed hunks gives the same per-line result is tied by the c16ls correspondence, not proved"]
     res.assumptions = ["segment contract (Equal+Delete = old, Equal+Insert = new, segment ends on char boundaries, "
                        "non-whitespace inserts are substantive) and move contract (indices in range, ranges inside "
                        "their deletion/insertion on char boundaries) hold of the real diff: checked on every case",
@@ -52,6 +87,7 @@ def run(tier, seed):
                        "panics inside the unmodelled diff/tokenizer/move detector are reachable only by the harness "
                        "(sig panic:compute-diffs), not by the theorem"]
     C.phase_proofs(res, PROP, THEOREMS)
+    B.phase_bridge(res)
     ok, out = C.build_harness()
     if not ok:
         res.obligation("build harness against /repo working tree", False, "build")
@@ -70,11 +106,16 @@ def run(tier, seed):
             bad += b
             if res.violations:
                 break
+    bad += phase_linestep(res, seed, 8000 if tier == "quick" else 200000)
     if (bad or res.broken) and not res.violations:
         # broken tie: search harder for a concrete failing input on the implementation
         for s in range(seed + 1000, seed + 1006):
             C.phase_suite(res, "c16", s, 20000, None, name=f"search:c16:{s}")
             if res.violations:
                 break
-        res.extra["search"] = "6 extra seeds x 20000 cases of the c16 generators, all oracles evaluated on the implementation"
+            C.phase_suite(res, "c16ls", s, 20000, None, name=f"search:c16ls:{s}")
+            if res.violations:
+                break
+        res.extra["search"] = ("6 extra seeds x (20000 cases of the c16 generators + 20000 of the line-level generator), "
+                               "all oracles evaluated on the implementation")
     return res.finish()
